@@ -2,6 +2,7 @@ package hashes
 
 import (
 	"bytes"
+	"crypto"
 	"errors"
 	"fmt"
 	"hash"
@@ -369,6 +370,44 @@ func TestC05(t *testing.T) {
 		}
 	}
 	c.Exhaustive(fmt.Sprintf("length 0..%d x size class x key-length class x dispatch variant (whole + split-at-block + reset-reuse)", maxLen), total)
+
+	// entry points documented as equivalent: the constructors the packages register with the standard library
+	// (crypto.BLAKE2b_256/384/512, crypto.BLAKE2s_256) must give the same unkeyed RFC 7693 hash as New<size>(nil)
+	{
+		reg := []struct {
+			h    crypto.Hash
+			a    c05Alg
+			size int
+		}{{crypto.BLAKE2b_256, c05B, 32}, {crypto.BLAKE2b_384, c05B, 48}, {crypto.BLAKE2b_512, c05B, 64}, {crypto.BLAKE2s_256, c05S, 32}}
+		nReg := 0
+		for _, e := range reg {
+			for _, n := range []int{0, 1, e.a.bs - 1, e.a.bs, e.a.bs + 1, 3*e.a.bs + 5} {
+				msg := seqBytes(n)
+				want := e.a.ref(e.size, nil, msg)
+				what := ""
+				if !e.h.Available() {
+					what = "not registered"
+				} else if e.h.Size() != e.size {
+					what = fmt.Sprintf("crypto.Hash.Size() = %d", e.h.Size())
+				} else {
+					h := e.h.New()
+					h.Write(msg[:n/2])
+					h.Write(msg[n/2:])
+					if got := h.Sum(nil); h.Size() != e.size || h.BlockSize() != e.a.bs || !bytes.Equal(got, want) {
+						what = fmt.Sprintf("Size()=%d BlockSize()=%d Sum=%x, reference %x", h.Size(), h.BlockSize(), got, want)
+					}
+				}
+				if what != "" {
+					what = fmt.Sprintf("%s via the crypto.Hash registry (%v, %d-byte output) msglen=%d: %s", e.a.name, e.h, e.size, n, what)
+					c.Violation(what, "")
+					t.Fatalf("VF-VIOLATION: property=C05 %s", what)
+				}
+				c.Case(n > e.a.bs, fmt.Sprintf("registry|%v|m%d", e.h, n), "registry:"+e.a.name)
+				nReg++
+			}
+		}
+		c.Exhaustive("crypto.Hash registry entries {BLAKE2b_256, BLAKE2b_384, BLAKE2b_512, BLAKE2s_256} x length {0, 1, bs-1, bs, bs+1, 3bs+5}: Size, BlockSize and digest against the reference", nReg)
+	}
 
 	// size thresholds that may switch code paths: one big Write of 2^12..2^20 (and k*2^16) bytes +- {0,1,bs-1,bs,bs+1},
 	// after a drawn pre-fill of the block buffer (nothing, 1 byte, bs-1 bytes, or the key block), followed by Sum at once,
